@@ -416,7 +416,8 @@ func (m *monC07) End(td *TD) *Viol { return m.Quiescent(td, Pending{}) }
 
 type monC08 struct {
 	baseMon
-	liveInAtContinue map[int]int // hand -> seated-in players with chips when its continue interval elapsed
+	liveInAtContinue map[int]int  // hand -> seated-in players with chips when its continue interval elapsed
+	pauseAtContinue  map[int]bool // hand -> pause condition (break or too few players with chips) at that moment
 	seenSnap         int
 	settledAt        map[int]int64 // hand -> virtual time of settlement
 	openedAt         map[int]int64
@@ -425,7 +426,7 @@ type monC08 struct {
 }
 
 func newMonC08(h *hist, interval int) *monC08 {
-	return &monC08{settledAt: map[int]int64{}, openedAt: map[int]int64{}, interval: int64(interval), h: h, liveInAtContinue: map[int]int{}}
+	return &monC08{settledAt: map[int]int64{}, openedAt: map[int]int64{}, interval: int64(interval), h: h, liveInAtContinue: map[int]int{}, pauseAtContinue: map[int]bool{}}
 }
 
 func (m *monC08) liveIn(t *pt.Table) int {
@@ -446,6 +447,13 @@ func (m *monC08) Quiescent(td *TD, p Pending) *Viol {
 		if _, done := m.liveInAtContinue[cur.State.GameCount]; !done && cur.State.Status == pt.TableStateStatus_TableGameStandby {
 			if td.env.Now() >= t0+m.interval*1e9 || td.env.NextTimerDue() >= t0+m.interval*1e9 {
 				m.liveInAtContinue[cur.State.GameCount] = m.liveIn(cur)
+				alive := 0
+				for _, pl := range cur.State.PlayerStates {
+					if pl.Bankroll > 0 {
+						alive++
+					}
+				}
+				m.pauseAtContinue[cur.State.GameCount] = cur.State.BlindState.IsBreaking() || alive < cur.Meta.TableMinPlayerCount
 			}
 		}
 	}
@@ -465,7 +473,7 @@ func (m *monC08) Quiescent(td *TD, p Pending) *Viol {
 						return &Viol{Key: "opened-before-continue-interval", Detail: fmt.Sprintf("hand %d opened %dms after hand %d settled, the continue interval is %ds", st.GameCount, (s.VTime-t0)/1e6, st.GameCount-1, m.interval)}
 					}
 					// open-game timeout is 2 s after the set-up (which happens when the interval elapses)
-					if s.VTime > t0+(m.interval+2)*1e9 && m.liveInAtContinue[st.GameCount-1] >= 2 {
+					if s.VTime > t0+(m.interval+2)*1e9 && m.liveInAtContinue[st.GameCount-1] >= 2 && !m.h.lateLeave[st.GameCount-1] {
 						return &Viol{Key: "opened-late", Detail: fmt.Sprintf("hand %d opened %dms after hand %d settled; interval %ds + open-game timeout 2s", st.GameCount, (s.VTime-t0)/1e6, st.GameCount-1, m.interval)}
 					}
 				}
@@ -518,10 +526,10 @@ func (m *monC08) End(td *TD) *Viol {
 		if td.env.PendingTimers() > 0 {
 			return nil // the runner stopped for its own reasons (hand budget), not a wedge
 		}
-		if shouldPause {
+		if shouldPause && m.pauseAtContinue[st.GameCount] {
 			return &Viol{Key: "did-not-pause", Detail: fmt.Sprintf("after hand %d: break=%v, %d players with chips (minimum %d), but the table stays in standby", st.GameCount, st.BlindState.IsBreaking(), alive, t.Meta.TableMinPlayerCount)}
 		}
-		if liveIn >= 2 && m.liveInAtContinue[st.GameCount] >= 2 {
+		if liveIn >= 2 && m.liveInAtContinue[st.GameCount] >= 2 && !m.h.lateLeave[st.GameCount] {
 			sm := pt.VerifSeatManager(td.te)
 			og := pt.VerifOpenGameManager(td.te)
 			return &Viol{Key: "wedged-in-standby", Detail: fmt.Sprintf("after hand %d settled the table stays in standby for ever: %d seated-in players have chips, no timer is pending and nothing is runnable\nblocked: %v\nseat manager: %s\ngate: %+v\nerrors: %v", st.GameCount, liveIn, td.env.Blocked(), seatManagerString(sm), og.GetState(), td.errs)}
@@ -597,7 +605,9 @@ func (m *monC12) End(td *TD) *Viol {
 		return v
 	}
 	t := td.table()
-	if t.State.BlindState.IsBreaking() && t.State.Status == pt.TableStateStatus_TableGameStandby && td.env.PendingTimers() == 0 {
+	// a break that arrives during the open-game wait only has to prevent the open (the pause decision was
+	// taken when the continue interval elapsed)
+	if t.State.BlindState.IsBreaking() && !m.h.breakDuringWait && t.State.Status == pt.TableStateStatus_TableGameStandby && td.env.PendingTimers() == 0 {
 		return &Viol{Key: "break-did-not-pause", Detail: "the blind level is a break, the hand is over, but the table did not pause"}
 	}
 	return nil
